@@ -89,6 +89,39 @@ def cook_publication_order(spec):
 
 
 # ---------------------------------------------------------------------------
+# C16: templates reached through load: are built with the SAME options as the template that loads
+# them (auto_reload in particular: "renders, on every call, the content its file had ...")
+# ---------------------------------------------------------------------------
+def file_options_frame(spec):
+    t0 = time.time()
+    fn = find(parse('zpt/template.py'), 'PageTemplateFile.__init__')
+    own = [a.arg for a in fn.args.posonlyargs + fn.args.args + fn.args.kwonlyargs]
+    allowed = {'self', 'filename', 'loader_class', 'package_name', 'search_path'}
+    extra = [a for a in own if a not in allowed]
+    kw = fn.args.kwarg.arg if fn.args.kwarg else None
+    fwd_loader = fwd_super = False
+    for n in ast.walk(fn):
+        if isinstance(n, ast.Call):
+            spread = [k for k in n.keywords if k.arg is None and isinstance(k.value, ast.Name) and k.value.id == kw]
+            if not spread:
+                continue
+            f = ast.unparse(n.func)
+            if f == 'loader_class':
+                fwd_loader = True
+            if f.startswith('super().__init__'):
+                fwd_super = True
+    ok = not extra and kw is not None and fwd_loader and fwd_super
+    o = ob('PageTemplateFile.__init__.options_frame', ok,
+           'every option given to a file template (**%s: auto_reload, debug, strict, ...) reaches both the '
+           'template itself and the loader it creates for load: expressions; no option is taken out of it '
+           'by an explicit parameter' % (kw or 'config'),
+           {'explicit_parameters_beyond_the_documented_ones': extra, 'options_dict': kw,
+            'forwarded_to_loader': fwd_loader, 'forwarded_to_base_class': fwd_super})
+    return {'unit': 'frames.file_options_frame', 'function': 'zpt/template.py::PageTemplateFile.__init__',
+            'obligations': [o], 'wall': time.time() - t0}
+
+
+# ---------------------------------------------------------------------------
 # C03: the Start / End nodes of an element are built from the fields of its OWN start / end tag
 # (with Compiler.visit_Start / visit_End emitting exactly those fields: contracts/compiler_emit.py)
 # ---------------------------------------------------------------------------
